@@ -470,3 +470,43 @@ def tcrdist_calls(rng):
            "chain": {"t": "const", "v": "beta"}, "max_edits": I(1), "edit_on_trimmed": {"t": "const", "v": True}, "max_tcrdist": R(20)}
     yield {"df": table({"CDR3A": ["CAVSDLEPNSSASKIIF"], "TRAV": ["TRAV12-2*01"], "CDR3B": ["CASSIRSSYEQYF"], "TRBV": ["TRBV19*01"]}),
            "chain": {"t": "const", "v": "alpha"}, "max_edits": I(2), "edit_on_trimmed": {"t": "const", "v": False}, "max_tcrdist": R(20)}
+
+
+@scope("subsample_calls")
+def subsample_calls(rng):
+    for kind in ("list", "ndarray"):
+        for vals in itertools.product(range(0, 4), repeat=3):
+            for n in range(0, sum(vals) + 2):
+                yield {"counts": seq([I(v) for v in vals], kind), "n": I(n)}
+    while True:
+        vals = [rng.randint(0, 9) for _ in range(rng.randint(1, 9))]
+        yield {"counts": seq([I(v) for v in vals], rng.choice(["list", "ndarray"])), "n": I(rng.randint(0, sum(vals) + 1))}
+
+
+@scope("powerlaw_sample_calls")
+def powerlaw_sample_calls(rng):
+    for size in (0, 1, 2, 7, 10):
+        for xmin in (I(1), R(1.0), I(2), R(3.0), I(10)):
+            for alpha in (1.01, 1.5, 2.0, 3.5, 9.0):
+                yield {"size": I(size), "xmin": xmin, "alpha": R(alpha)}
+
+
+@scope("loglik_calls")
+def loglik_calls(rng):
+    while True:
+        xs = [rng.randint(1, 30) for _ in range(rng.randint(0, 9))]
+        yield {"x": seq([R(float(v)) for v in xs], "ndarray"), "alpha": R(rng.choice([1.2, 1.5, 2.0, 2.7, 4.4])), "xmin": R(float(rng.randint(1, 4)))}
+
+
+@scope("mle_calls")
+def mle_calls(rng):
+    while True:
+        xs = [rng.randint(1, 40) for _ in range(rng.randint(1, 10))]
+        cmin = rng.choice([I(1), R(1.0), I(2), R(3.0)])
+        rec = {"c": seq([I(v) for v in xs], rng.choice(["list", "ndarray"])), "cmin": cmin,
+               "method": {"t": "const", "v": rng.choice(["simple", "continuitycorrection", "exact", "exact", "other"])},
+               "kwargs": {"t": "dict", "items": {}}}
+        if rng.random() < 0.3:
+            lo = rng.choice([1.1, 1.5, 2.0])
+            rec["kwargs"] = {"t": "dict", "items": {"bounds": tup(R(lo), R(lo + rng.choice([0.5, 2.0, 3.0])))}}
+        yield rec
